@@ -428,6 +428,9 @@ def check_special(e, block):
     if ws[0] == "@res":
         got = res_class(block)
         return None if got in ws[1].split("|") else "specification expects outcome %s, implementation gives %s" % (ws[1], got)
+    if ws[0] in ("@fmt", "@jsonkeys", "@pbnum", "@render", "@agree"):
+        import fmtoracle
+        return fmtoracle.check(ws, block)
     if ws[0] == "@col":
         msgs = [l for l in block if l.startswith("msg")]
         sel = range(len(msgs)) if ws[1] == "*" else [int(ws[1])]
@@ -683,7 +686,7 @@ def run_property(prop, tier, seed):
 
 def replay(path):
     import props
-    m = re.match(r"(C\d+)-", os.path.basename(path))
+    m = re.match(r"(C\d+)-", os.path.basename(path)) or re.search(r"/(C\d+)/[^/]+$", os.path.abspath(path))
     if not m:
         log("cannot tell the property from the file name")
         return 2
